@@ -188,3 +188,29 @@ Example C15_ex_forged_and_accepted :
   | None => False
   end.
 Proof. exact Ex.forged_and_accepted. Qed.
+
+(* ---------------------------------------------------------------- hypothesis A: bridge to C06's model of the aggregate commit *)
+From LE Require Cert.AggCommit Cert.AssembleProofs Forge.AggBridge.
+From Coq Require Import Permutation.
+(* with the translation [corresponds] between the header / verifier environment of Exec.VerifyBlock and the commit / node
+   state of Cert.AggCommit (same height, same emptiness of bitmap and signature, same BFT heights and next-parameter height,
+   the two external verdicts computed as C06's verify computes them), whatever C06's verify accepts is accepted here *)
+Theorem C15_aggregate_commit_bridge : forall (sigT msgT : Type) (sig_len0 : sigT -> bool) (msg_of : AggCommit.cert -> msgT)
+    (fav : list AggCommit.key -> msgT -> sigT -> bool) h v ce a,
+  AggBridge.corresponds sigT msgT sig_len0 msg_of fav h v ce a ->
+  AggCommit.verify sig_len0 msg_of fav ce a = AggCommit.Accept -> agg_commit_ok h v = true.
+Proof. exact AggBridge.verify_accept_bridge. Qed.
+
+(* hypothesis A holds for every aggregate commit GetAggregateCommit assembles from a valid, duplicate-free pool
+   (C06_assemble_accepts), under the ideal-BLS hypotheses of C06 *)
+Theorem C15_assembled_aggregate_commit_accepted : forall (sigT msgT : Type) (sig_len0 : sigT -> bool) (msg_of : AggCommit.cert -> msgT)
+    (fav : list AggCommit.key -> msgT -> sigT -> bool) (vrf : AggCommit.key -> msgT -> sigT -> bool) (agg : list sigT -> sigT),
+  (forall ks ss m ks', Forall2 (fun k s => vrf k m s = true) ks ss -> ks <> [] -> Permutation ks ks' ->
+                       fav ks' m (agg ss) = true) ->
+  (forall ss, sig_len0 (agg ss) = false) ->
+  forall e g ng a h v,
+    AssembleProofs.params_wf e -> AssembleProofs.pool_ok sigT msgT msg_of vrf e (g ++ ng) ->
+    AggCommit.get_aggregate_commit agg e g ng = AggCommit.GOk a ->
+    AggBridge.corresponds sigT msgT sig_len0 msg_of fav h v e a ->
+    agg_commit_ok h v = true.
+Proof. exact AggBridge.assembled_commit_accepted. Qed.
